@@ -15,9 +15,11 @@ def plan(tier, seed):
             jobs.append(J("greedy n=3 B=3", "ll_job", decode_type="greedy", n=3, B=3))
     else:
         jobs = [J("n=3 w=2 B=1", "beam_job", n=3, W=2, B=1), J("n=3 w=2 B=2", "beam_job", n=3, W=2, B=2), J("n=3 w=2 B=2 select_best", "beam_job", n=3, W=2, B=2, select_best=True),
-                J("n=3 w=3 B=2", "beam_job", n=3, W=3, B=2)]
+                J("n=3 w=3 B=2", "beam_job", n=3, W=3, B=2),
+                # n=4 is the smallest size where a step has a real choice among expansions of different parents, and where tours differ in length
+                J("n=4 w=2 B=2", "beam_job", n=4, W=2, B=2), J("n=4 w=2 B=2 select_best", "beam_job", n=4, W=2, B=2, select_best=True)]
         if tier == "thorough":
-            jobs += [J("n=4 w=2 B=1", "beam_job", n=4, W=2, B=1), J("n=4 w=2 B=2", "beam_job", n=4, W=2, B=2), J("n=3 w=3 B=2 select_best", "beam_job", n=3, W=3, B=2, select_best=True)]
+            jobs += [J("n=4 w=2 B=1", "beam_job", n=4, W=2, B=1), J("n=4 w=2 B=3", "beam_job", n=4, W=2, B=3), J("n=3 w=3 B=2 select_best", "beam_job", n=3, W=3, B=2, select_best=True)]
     return {"jobs": jobs, "level": "model_checking",
             "bounds": "TSP n<=4, B<=3, beam width <=3 (n=4: width 2); abstract decoder (logits = uninterpreted function of the state shown), so the verdict holds for every network",
             "outside": "beam width >=3 at n>=4 (symbolic top-k does not finish); other environments (variable-length episodes); the numerical content of real networks"}
